@@ -53,7 +53,7 @@ def run(ctx):
     enum = R.enum_cases(rng, thorough)
     kinds["enumerated_schedules"] = len(enum)
     cases += enum
-    nrand = 4500 if thorough else 450
+    nrand = 4000 if thorough else 450
     for i in range(nrand):
         cases.append(R.gen_case(rng, big_ok=(i % 3 == 0) if thorough else (i % 3 != 2)))
     kinds["random"] = nrand
